@@ -245,7 +245,8 @@ theorem soCayley_order2_full_rank {𝔸 : Type*} [NormedRing 𝔸] [NormedAlgebr
 
 /-! ### round 6: scalar charts, probability sphere, entry placements -/
 
-/-- `PositiveReal` / `OpenInterval`: `batch_size` independent scalars (`0` encodes `None` → one scalar), never fewer than one -/
+/-- `PositiveReal` / `OpenInterval`: `batch_size` independent scalars (`0` encodes `None` → one scalar), never fewer than one (a restatement of the
+definition of `scalarParam`; the per-entry rank 1 is `softplus_deriv_pos` …, the batched map is the product of `bs` such charts) -/
 theorem count_scalar (bs : Nat) : scalarParam bs = max 1 bs ∧ 1 ≤ scalarParam bs := by
   unfold scalarParam; split_ifs with h <;> omega
 
@@ -290,6 +291,12 @@ theorem placement_psd_factor_injective (rank : Nat) (isReal : Bool) (θ θ' : Na
     (hn : psdNormaliser dim rank isReal θ = psdNormaliser dim rank isReal θ') :
     ∀ p, p < psdParam dim rank isReal true → θ p = θ' p := by
   intro p hp; exact psdCholFactor_injective_mod_scale isReal θ θ' hr hrk h hn p (by simpa [psdParam] using hp)
+
+/-- `psdNormaliser` (used in the statement above) is not a re-typed twin: it is the normaliser inside the executed `psdCholFactor` — the diagonal entries of
+the model's factor are `softplus θ_c / psdNormaliser θ` -/
+theorem placement_psd_normaliser_is_models (rank : Nat) (isReal : Bool) (θ : Nat → ℝ) (c : Nat) (hc : c < rank) (hrk : rank ≤ dim) :
+    (psdCholFactor (K := ℂ) dim rank isReal θ).get c c = ((softplus (θ c) / psdNormaliser dim rank isReal θ : ℝ) : ℂ) :=
+  psdCholFactor_diag isReal θ c hc hrk
 
 example : ∃ x : EuclideanSpace ℝ (Fin 3), ∀ i, x i ≠ 0 := ⟨WithLp.toLp 2 fun _ => 1, fun i => by simp⟩
 
